@@ -58,6 +58,25 @@ def run_literal(desc):
 
 
 def check_case(root, spec, pps, absolute, cfg, out, armed):
+    # the same directory spelled through a symlink elsewhere followed by `..`: <parent>/alias -> <root>/<sub>, so
+    # <parent>/alias/.. is <root> for the OS although not textually.  The link exists for the whole case.
+    alias = None
+    if not absolute:
+        sub = next((e[1] for e in spec if e[0] == 'd' and '/' not in e[1] and not e[1].startswith('.')), None)
+        if sub is not None and os.path.isdir(os.path.join(root, sub)) and not os.path.islink(os.path.join(root, sub)):
+            alias = os.path.join(os.path.dirname(root), 'alias')
+            if os.path.lexists(alias):
+                alias = None
+            else:
+                os.symlink(os.path.join(root, sub), alias)
+    try:
+        return _check_case(root, spec, pps, absolute, cfg, out, armed, alias)
+    finally:
+        if alias is not None:
+            os.unlink(alias)
+
+
+def _check_case(root, spec, pps, absolute, cfg, out, armed, alias):
     texts = [A.render_path(pp) for pp in pps]
     mixed = absolute == 'mixed'
     if mixed:
@@ -74,9 +93,17 @@ def check_case(root, spec, pps, absolute, cfg, out, armed):
         pats = '{' + ','.join(texts) + '}'
     case = {'tree': [list(e) for e in spec], 'asts': [A.to_json(pp) for pp in pps], 'absolute': absolute, 'patterns': pats, 'cfg': cfg}
     fd = None
+    spelled = []
+    if not absolute:
+        spelled = [('trailing separator', root + '/'), ('trailing /.', root + '/.')]
+        if alias is not None:
+            spelled.append(('symlink/..', alias + '/..'))
+    sres = []
     try:
         with util.watchdog(15), util.ScandirCounter(8000):
             res = G.glob(pats, flags=fl, root_dir=root)
+            for label, sp in spelled:
+                sres.append(('root_dir spelled with ' + label, G.glob(pats, flags=fl, root_dir=sp)))
             ires = list(G.iglob(pats, flags=fl, root_dir=root))
             bres = [os.fsdecode(x) for x in G.glob(os.fsencode(pats) if isinstance(pats, str) else [os.fsencode(p) for p in pats], flags=fl,
                                                   root_dir=os.fsencode(root))]
@@ -95,7 +122,7 @@ def check_case(root, spec, pps, absolute, cfg, out, armed):
         out.violation(dict(case, problem='iglob differs from glob', glob=res[:8], iglob=ires[:8]), bucket=('iglob',))
         return res
     base = set(res)
-    for label, other in (('bytes root', bres), ('PathLike root', pres), ('dir_fd', fres), ('cwd', cres)):
+    for label, other in [('bytes root', bres), ('PathLike root', pres), ('dir_fd', fres), ('cwd', cres)] + sres:
         out.evaluations += 1
         if set(other) != base:
             out.violation(dict(case, problem='result set depends on how the root is given: ' + label, root_dir=sorted(base)[:8],
